@@ -255,7 +255,7 @@ def run_stls_seq(cell):
     from slimta.smtp import ConnectionLost
     prefixes = [[b'EHLO one'], [b'EHLO one', b'MAIL FROM:<a@b>'],
                 [b'EHLO one', b'MAIL FROM:<a@b>', b'RCPT TO:<c@d>'],
-                [b'EHLO one', b'EHLO two'], [b'HELO one', b'EHLO two']]
+                [b'EHLO one', b'EHLO two'], [b'NOOP', b'EHLO two', b'RSET']]
     pre = prefixes[api.choice('prefix', len(prefixes))]
     tail = api.sbytes('tail', cell['t'])
     follow = FOLLOW[3]
@@ -286,8 +286,7 @@ def run_stls_seq(cell):
                       codes[2] == b'500'), 'post-handshake-reply-differs',
                   **info)
     api.prove(b'STARTTLS' not in tls.wire(), 'STARTTLS-still-offered', **info)
-    api.prove(b'STARTTLS' in sock.wire() or pre[0][:4] == b'HELO',
-              'STARTTLS-never-offered', **info)
+    api.prove(b'STARTTLS' in sock.wire(), 'STARTTLS-never-offered', **info)
 
 
 def run_stls_client(cell):
